@@ -1,12 +1,15 @@
 (* C02 driver: same protocol as harness/c02.cpp (q / x / t lines), calling the extracted ImplViterbi model.
-   usage: c02_driver [d0 d1 scan]   tie-break policy as three 0/1 digits (default 000 = the source's strict comparisons) *)
+   usage: c02_driver [d0 d1 scan[:start]]   tie-break policy as three 0/1 digits, optionally the initial candidate state of the
+   end-state scan (default 000 = the source's strict comparisons, start = the regenerated vit_scan_start) *)
 open C02_model
 (*#include conv.inc.ml*)
 (*#include conv_z.inc.ml*)
 
 let tb =
   let s = if Array.length Sys.argv > 1 then Sys.argv.(1) else "000" in
-  { tb_d0 = s.[0] = '1'; tb_d1 = s.[1] = '1'; tb_scan = s.[2] = '1' }
+  let start = if String.length s > 4 && s.[3] = ':' then nat_of_int (int_of_string (String.sub s 4 (String.length s - 4)))
+              else source_tiebreak.tb_start in
+  { tb_d0 = s.[0] = '1'; tb_d1 = s.[1] = '1'; tb_scan = s.[2] = '1'; tb_start = start }
 
 let csv s = if s = "-" then [] else List.map int_of_string (String.split_on_char ',' s)
 
